@@ -24,6 +24,38 @@ def to_ops(hist):
     return ops
 
 
+NEIGHBOURS = {"top": ["meth", "way"], "meth": ["Outer.Inner.meth", "top", "make.inner"], "inner_meth": ["Outer.meth", "top"],
+              "made": ["make", "Outer.meth", "top"], "deco": ["top", "make"], "way": ["top", "Outer.meth"], "lid_open": ["top", "make.inner"]}
+PLACE_OF = {"top": "top", "Outer.meth": "meth", "Outer.Inner.meth": "inner_meth", "make.inner": "made"}
+
+
+def paths_model(out, maxops, mech, probed, name):
+    pr = ", ".join('"' + x + '"' for x in probed)
+    cfg = (f'INIT InitX\nNEXT Next\nCONSTANTS MaxOps = {maxops} Mech = "{mech}" Probed = {{{pr}}}\n'
+           "CONSTRAINT Collect\nINVARIANT Export\nPOSTCONDITION Report\nCHECK_DEADLOCK FALSE\n")
+    r = core.run_tlc("RegistryPaths", cfg, workers=1, timeout=1200)
+    out.add_tlc(name, r)
+    return {t[1]: t[2] for t in r.tagged("SIGNATURE")}, [t[1] for t in r.tagged("HIST")]
+
+
+def paths_to_case(hist, place_key):
+    """a RegistryPaths history (act/deact of several functions) as ops for target `place_key`: the target's own probes are
+    act/deact by name, the others neighbour probes; every reference is resolved after every operation"""
+    ops, stacks, n = [], {}, 0
+    for h in hist:
+        g = h[1]
+        if h[0] == "act":
+            n += 1
+            pid = f"q{n}"
+            stacks.setdefault(g, []).append(pid)
+            ops.append(["act", pid, "name"] if g == place_key else ["nact", pid, g])
+        else:
+            pid = stacks[g].pop()
+            ops.append(["deact", pid] if g == place_key else ["ndeact", pid])
+        ops.append(["resolve"])
+    return ops
+
+
 def run(out, tier, seed):
     rng = random.Random(seed * 7919 + 47)
     work = core.scratch("c14-")
@@ -35,6 +67,27 @@ def run(out, tier, seed):
         out.judge({"clause": "RegistryModel"}, {"tlc": r.out[-2000:]})
     hists = [t[1] for t in r.tagged("HIST")]
     cases = []
+    # several functions of one module (namesakes, nesting): the mechanism of the tree, the seeded reordering and a
+    # registry discipline under which the A level holds; every history of the tree's mechanism is replayed
+    probed = ["top", "Outer.meth", "make", "make.inner"]
+    pm = 4 if tier == "quick" else 5
+    sigs, phists = paths_model(out, pm, "tree", probed, f"RegistryPaths[tree,{pm}]")
+    sigs_none, _ = paths_model(out, pm, "none", probed, f"RegistryPaths[none,{pm}]")
+    sigs_seed, _ = paths_model(out, pm, "assim-first", probed, f"RegistryPaths[assim-first,{pm}]")
+    if sigs_none:
+        out.drift.append(f"RegistryPaths: the A level is violated even when nothing is registered: {sorted(sigs_none)}")
+    if sigs_seed == sigs and all(sigs_seed[k] == sigs[k] for k in sigs):
+        out.drift.append("RegistryPaths: the reordered mechanism is indistinguishable from the tree's")
+    if tier == "quick":
+        phists = rng.sample(phists, min(len(phists), 80))
+    for h in phists:
+        target = rng.choice(probed) if tier == "quick" else None
+        for tk in ([target] if target else probed):
+            if tk in PLACE_OF:
+                cases.append({"id": len(cases), "place": PLACE_OF[tk], "src": "tlc-paths", "ops": paths_to_case(h, tk)})
+    for sname, w in sigs.items():
+        tk = next((g for g in (x[1] for x in w) if g in PLACE_OF), "top")
+        cases.append({"id": len(cases), "place": PLACE_OF[tk], "src": "witness:" + sname, "ops": paths_to_case(w, tk)})
     for h in hists:
         places = PLACES if tier == "thorough" else [rng.choice(PLACES)]
         for pl in places:
@@ -56,20 +109,54 @@ def run(out, tier, seed):
                     h.append(["call"])
                 else:
                     h.append(["resolve"])
-            cases.append({"id": len(cases), "place": pl, "src": "random", "ops": to_ops(h)})
+            ops = to_ops(h)
+            # probes on other functions of the module in between (half of the random histories)
+            if rng.random() < 0.5:
+                k, open_ = 0, []
+                for pos in sorted(rng.sample(range(len(ops) + 1), min(len(ops) + 1, rng.randint(1, 4))), reverse=True):
+                    k += 1
+                    if open_ and rng.random() < 0.4:
+                        ops.insert(pos, ["ndeact", open_.pop()])
+                    else:
+                        ops.insert(pos, ["nact", f"n{k}", rng.choice(NEIGHBOURS[pl])])
+                # insertion went from the back: pair every ndeact with an earlier nact, drop the ones that come too early
+                seen, fixed = [], []
+                for o in ops:
+                    if o[0] == "nact":
+                        seen.append(o[1])
+                        fixed.append(o)
+                    elif o[0] == "ndeact":
+                        if seen:
+                            fixed.append(["ndeact", seen.pop()])
+                    else:
+                        fixed.append(o)
+                ops = fixed
+            cases.append({"id": len(cases), "place": pl, "src": "random", "ops": ops})
     traces = L.run_histories(cases, work, driver="harness.drivers.ref_driver", par=6)
     fails, results = L.validate(traces, work, spec="TraceRefs", par=8)
     for i, rr in enumerate(results):
         out.add_tlc(f"TraceRefs[{i}]", rr)
     out.traces += len(traces)
     by = {c["id"]: c for c in cases}
+    seen_why = set()
     for tid, items in fails.items():
         for tag, rest in items:
             f = rest[0] if tag == "FAIL" else {"clause": "Incomplete", "why": "", "nactive": 0}
+            if f["clause"] == "Drift":
+                out.drift.append({"case": tid, "function": f["why"], "note": "the registry model predicts a wrong answer, the code answers right"})
+                continue
+            seen_why.add(f["why"])
             out.judge({"clause": f["clause"], "why": f["why"], "while_active": f["nactive"] > 0},
                       {"case": by[tid], "verdict": [tag, rest]})
+    for sname in sigs:
+        if "mech:" + sname not in seen_why:
+            out.drift.append(f"RegistryPaths signature {sname} did not reproduce in the real registry")
     out.extra.update({"histories_exhaustive": len(hists), "placements": PLACES, "cases": len(cases),
-                      "rule": "every history of <= N operations {activate by name, activate by reference, deactivate, call, resolve} "
+                      "paths_model_signatures": sorted(sigs), "paths_histories": len(phists),
+                      "rule": "RegistryPaths: every history of <= N activations/deactivations over four functions of one module "
+                              "(method and module-level namesake, closure and enclosing function) for three registry mechanisms, all "
+                              "histories replayed with every reference of the module resolved after every step and compared with the "
+                              "mechanism (RegistryOps) by TraceRefs; every history of <= N operations {activate by name, activate by reference, deactivate, call, resolve} "
                               "enumerated by TLC on the registry model, replayed on five placements (module function, method, method of "
                               "a nested class, function defined in a function, decorated function), plus random longer histories; "
                               "identity of select(refstring(fn)).element.name and per-probe streams validated by TraceRefs"})
